@@ -113,3 +113,8 @@ h!(c12__ctxax_zero_props, |s| {
         assert!(x.is_finite());
     }
 });
+h!(c12__ctxax_not, |s| {
+    let x: f32 = s.f32();
+    assert!(x.not().to_bits() == (if fz(x) { 1.0f32 } else { 0.0f32 }).to_bits());
+    assert!(fz(0.0));
+});
